@@ -668,9 +668,13 @@ fn create_room_constraint_set<'a>(
                 + course.room_factor * (course.num_min + course.instructors.len()) as f32)
                 .ceil() as usize)
         {
-            let shrink_size = (((to_size as f32) - course.room_offset) / course.room_factor).floor()
-                as usize
-                - course.instructors.len();
+            // Due to floating point rounding, the division may yield slightly less than num_min,
+            // although num_min fits the room according to the check above.
+            let shrink_size = std::cmp::max(
+                ((((to_size as f32) - course.room_offset) / course.room_factor).floor() as usize)
+                    .saturating_sub(course.instructors.len()),
+                course.num_min,
+            );
             // Don't shrink courses that are already shrinked further in the current node
             if current_node
                 .shrinked_courses
